@@ -291,6 +291,10 @@ def run_shard(spec):
             elif fmode == "two" and len(here) >= 2:
                 paths = r.sample(here, 2)
             paths_root = [os.path.normpath(os.path.join(sub, p)) for p in paths]
+            if paths and r.random() < 0.3:
+                # the same filters given as ABSOLUTE paths ($PWD/x.ipynb, a tool passing full names): git accepts them
+                paths = [os.path.join(cwd, p) for p in paths]
+                col.count("filters_given_as_absolute_paths")
             col.eval()
             wit = {"seed": spec["seed"], "repo_index": ri, "comparison": ci, "refs": [ra, rb], "cwd": sub or ".", "filters": paths,
                    "files": allfiles[:40]}
